@@ -55,13 +55,20 @@ class FeedbackFieldWrapper:
         return str(self.value)
 
     def __format__(self, format_spec):
-        value = str(self.value)
-        for formatter_name in self.formatter.available:
-            if format_spec.endswith(formatter_name):
-                format_spec = chomp_spec(format_spec, formatter_name)
-                value = getattr(self.formatter, formatter_name)(self.value)
-                break
-        return value.__format__(format_spec)
+        try:
+            value = str(self.value)
+            for formatter_name in self.formatter.available:
+                if format_spec.endswith(formatter_name):
+                    format_spec = chomp_spec(format_spec, formatter_name)
+                    value = getattr(self.formatter, formatter_name)(self.value)
+                    break
+            return value.__format__(format_spec)
+        except ValueError as unprintable:
+            # Python refuses to turn an int beyond its digit limit into text (the factorial of a
+            # few thousand): a message can say that much about the field
+            if 'integer string conversion' not in str(unprintable):
+                raise
+            return f"<{type(self.value).__name__} too large to display>"
 
 # TODO: Convert Formatter into HtmlFormatter, and then make Formatter text by
 #       default.
